@@ -24,11 +24,28 @@ import CelmaVerif.Lemmas.InterleaveInventory
     Props/C09.lean) that the table of the tree under check is covered by it — same callers, same
     guards — and `plain_not_touches` / `threadProg_local` take that fact as a hypothesis.
 
+  * (audit follow-up 2) what else of process-wide state a call can name is the regenerated table
+    `entryFootprints`: per `Api` call the mutable static-storage objects named anywhere in the
+    CALL CLOSURE (by simple function name, cut at the other entry points and at the singleton's
+    members) of the C++ function the call enters.  `Api.generated` puts those objects into the
+    call's steps, so the thread programs follow the tree under check; `callFootprintsModelled`
+    (by `decide`, in Props/C09.lean) checks that every such object is one the model's reading gives
+    that call anyway (a singleton cell for a call that reaches the singleton, a stream cell for a
+    printing call), that the singleton callers inside a call's closure are reached only under guards
+    under which `Api.touchesSingleton` says so, that standard streams are only *bound* by the
+    constructor, and that no external callee is on the list of functions with hidden static state
+    (except the justified ones).  `plain_generated_nil` / `threadProg_local` take that fact as a
+    hypothesis.  What stays hand-written: the cells of the thread's OWN objects per call
+    (`tmp/sepv/dest/argv`), the map `Api.entry`/`Api.apiName` from calls to C++ functions, and
+    `Api.prints` (who writes to the streams the handler was bound to).
+
   `Plain` is a decidable condition on the call list (plain handler, no usage / group / standard
   argument request).  `threadProg_local` PROVES the footprint condition for plain threads;
   `threadProg_not_local` proves it fails for every thread with a call that reaches the
-  singleton, so `Plain` is not a restatement of `Local` for arbitrary programs but the exact
-  boundary inside this family.
+  singleton whatever the handler's flag, so `Plain` is not a restatement of `Local` for arbitrary
+  programs.  It is a SUFFICIENT condition, not the exact boundary inside this family: a handler
+  constructed with `hfInGroup` on which no add-call is made is `Local` without being `Plain`
+  (`group_handler_without_add_local`; audit 2, part D, finding 6).
 -/
 namespace CelmaVerif.Interleave
 
@@ -165,16 +182,133 @@ theorem touches_le_model (hm : callersModelled = true) (g : Bool) (a : Api)
     have hin := List.all_eq_true.mp hm c hc
     exact ⟨(c.file, c.function, c.guards), List.contains_iff_mem.mp hin, hcc⟩
 
-/-- does this call write to the handler's output streams? -/
+/-- does this call write to the handler's output streams?  (Hand-written.  `Handler::usage`,
+`Handler::listArgGroups` write to `mOutput`.  `evalArguments` writes to `mOutput` only under
+`if (mVerbose)` in `Handler::handleIdentifiedArg`, i.e. for a handler constructed with
+`hfVerboseArgs`: such handlers are outside this model unless they have streams of their own.) -/
 def Api.prints : Api → Bool
   | .usage | .listArgGroups => true
   | _ => false
+
+/-! ### the generated footprint of a call: what its call closure names
+
+`entryFootprints` (regenerated) lists per call the mutable static-storage objects named in the
+call closure of the C++ entry point. -/
+
+/-- the name of the call in the generated table -/
+def Api.apiName : Api → String
+  | .construct .. => "construct"
+  | .addListArg _ => "addListArg"
+  | .addBracketHandler => "addBracketHandler"
+  | .addSubGroupArg => "addSubGroupArg"
+  | .evalUse .. => "evalUse"
+  | .usage => "usage"
+  | .listArgGroups => "listArgGroups"
+  | .addStandardArgument => "addStandardArgument"
+  | .evalArgumentString => "evalArgumentString"
+
+/-- the row of the generated table for this call -/
+def Api.footprint (a : Api) : Option EntryFootprint :=
+  entryFootprints.find? fun fp => fp.api == a.apiName
+
+/-- inventory indices of the mutable statics of the repository the call closure names -/
+def Api.genStatics (a : Api) : List Nat :=
+  match a.footprint with
+  | some fp => fp.statics
+  | none => []
+
+/-- indices of the external objects (`std::cout` …) the call closure uses other than by binding a
+reference -/
+def Api.genExts (a : Api) : List Nat :=
+  match a.footprint with
+  | some fp => fp.usedExternals
+  | none => []
+
+/-- the process-wide cells the call closure names **in the tree under check** -/
+def Api.generated (a : Api) : List HCell := a.genStatics.map HCell.static ++ a.genExts.map HCell.ext
+
+/-- is inventory entry `e`, named in the closure of `a`, a cell the model's reading gives that
+call on a handler with `mUsedByGroup = g`?  (The only static cells of `Api.steps` besides the
+generated ones are the singleton cells, given to a call that reaches the singleton.) -/
+def allowedStatic (a : Api) (g : Bool) (e : Nat) : Bool :=
+  a.touchesSingleton g && singletonCells.contains (.static e)
+
+/-- the same for an external object used by the closure, on a handler bound to the standard
+streams iff `s` (the only external cells of `Api.steps` are the stream cells of a printing call) -/
+def allowedExt (a : Api) (s : Bool) (x : Nat) : Bool :=
+  a.prints && s && streamCells.contains (.ext x)
+
+def Api.isConstruct : Api → Bool
+  | .construct .. => true
+  | _ => false
+
+/-- external callees with hidden process-wide state that are accepted, with the reason:
+`getenv` (`Handler::checkReadEnvVarArgs`, only with `hfEnvVarArgs`) reads the environment, which no
+function of any closure writes (`setenv`, `putenv`, `unsetenv` are on the list and would alarm). -/
+def allowedHiddenState : List String := ["getenv"]
+
+/-- the generated footprint of call `a` is covered by the model's reading, for the least
+permissive flags (an object named in the closure counts as touched whatever the flags):
+* a row exists;
+* every mutable static of the repository / every external object *used* in the closure is a cell
+  the model gives the call with `mUsedByGroup = false`, own streams;
+* a standard stream is only *bound* (constructor argument / default argument) in the closure of
+  the constructor, and is a stream cell — that is the flag `stdStreams` of `Api.construct`;
+* every function of the closure that is a caller of a singleton member (rows of
+  `singletonCallers`, by simple name) reaches it only under guards under which the model says the
+  call touches the singleton;
+* no external callee with hidden static state except the accepted ones. -/
+def footprintModelled (a : Api) : Bool :=
+  match a.footprint with
+  | none => false
+  | some fp =>
+    fp.statics.all (allowedStatic a false) && fp.usedExternals.all (allowedExt a false) &&
+    fp.boundExternals.all (fun x => a.isConstruct && streamCells.contains (.ext x)) &&
+    fp.singletonCallers.all (fun r => [false, true].all fun g =>
+      !reaches g (foundGuards r.1 r.2) || a.touchesSingleton g) &&
+    fp.hiddenStateCallees.all (fun n => allowedHiddenState.contains n)
+
+/-- one representative per call (the table does not depend on the parameters) -/
+def Api.rep : Api → Api
+  | .construct .. => .construct false false
+  | .addListArg _ => .addListArg 0
+  | .evalUse .. => .evalUse 0 0
+  | a => a
+
+def apiReps : List Api :=
+  [.construct false false, .addListArg 0, .addBracketHandler, .addSubGroupArg, .evalUse 0 0,
+   .usage, .listArgGroups, .addStandardArgument, .evalArgumentString]
+
+/-- **the obligation**: the generated footprint of every call is covered by the model's reading -/
+def callFootprintsModelled : Bool := apiReps.all footprintModelled
+
+theorem rep_mem (a : Api) : a.rep ∈ apiReps := by
+  cases a <;> simp [Api.rep, apiReps]
+
+theorem rep_footprint (a : Api) : a.rep.footprint = a.footprint := by cases a <;> rfl
+
+theorem rep_touches (g : Bool) (a : Api) : a.rep.touchesSingleton g = a.touchesSingleton g := by
+  cases a <;> rfl
+
+theorem footprintModelled_of (hf : callFootprintsModelled = true) (a : Api) :
+    footprintModelled a.rep = true :=
+  List.all_eq_true.mp hf _ (rep_mem a)
+
+theorem all_false_nil {α : Type} (l : List α) (p : α → Bool) (hp : ∀ x, p x = false)
+    (h : l.all p = true) : l = [] := by
+  cases l with
+  | nil => rfl
+  | cons x xs => simp [List.all_cons, hp x] at h
 
 /-- an access-only step (no value is changed: `assign` ignores missing values) -/
 def touch (cells : List HCell) : List HCell × List HCell × (List HVal → List HVal) :=
   (cells, cells, fun _ => [])
 
-/-- the steps of one call of thread `t`; `inGroup`, `stdStreams`: the handler's construction flags -/
+/-- the steps of one call of thread `t`; `inGroup`, `stdStreams`: the handler's construction flags.
+First line: the thread's own objects (hand-written); second: the singleton's cells, by the
+regenerated call-site table; third: the stream cells; fourth: whatever else of process-wide state
+the call closure names in the tree under check (regenerated `entryFootprints`; empty on a tree
+whose footprints are the modelled ones). -/
 def Api.steps (t : Nat) (inGroup stdStreams : Bool) (a : Api) :
     List (List HCell × List HCell × (List HVal → List HVal)) :=
   (match a with
@@ -186,6 +320,7 @@ def Api.steps (t : Nat) (inGroup stdStreams : Bool) (a : Api) :
     | _ => [touch [.tmp t]])
   ++ (if a.touchesSingleton inGroup then [touch singletonCells] else [])
   ++ (if a.prints && stdStreams then [touch streamCells] else [])
+  ++ (if a.generated.isEmpty then [] else [touch a.generated])
 
 /-- the step list of a call sequence; a `construct` sets the flags for the calls that follow -/
 def apiSteps (t : Nat) : Bool → Bool → List Api → List (List HCell × List HCell × (List HVal → List HVal))
@@ -228,6 +363,34 @@ theorem plain_not_touches (hm : callersModelled = true) (a : Api) (h : a.plain =
 theorem plain_not_prints (a : Api) (h : a.plain = true) : a.prints = false := by
   cases a <;> first | rfl | (simp [Api.plain] at h)
 
+/-- the call closure of a call that does not reach the singleton under `mUsedByGroup = false`
+names no process-wide mutable object, **provided the generated footprints are the modelled ones**
+(`hf` = `C09_call_footprints_modelled`): an object named there would have to be a singleton cell of
+a call that reaches the singleton under `mUsedByGroup = false`, or a stream cell of a printing call
+on a handler bound to the standard streams (the obligation is stated for own streams) -/
+theorem generated_nil_of (hf : callFootprintsModelled = true) (a : Api)
+    (ht : a.touchesSingleton false = false) : a.generated = [] := by
+  have h1 := footprintModelled_of hf a
+  unfold footprintModelled at h1
+  rw [rep_footprint] at h1
+  unfold Api.generated Api.genStatics Api.genExts
+  cases hfp : a.footprint with
+  | none => rfl
+  | some fp =>
+    rw [hfp] at h1
+    simp only [Bool.and_eq_true] at h1
+    have hs : fp.statics = [] := all_false_nil _ _ (fun e => by
+      unfold allowedStatic; rw [rep_touches, ht]; rfl) h1.1.1.1.1
+    have hx : fp.usedExternals = [] := all_false_nil _ _ (fun x => by
+      unfold allowedExt; rw [Bool.and_false, Bool.false_and]) h1.1.1.1.2
+    show fp.statics.map HCell.static ++ fp.usedExternals.map HCell.ext = []
+    rw [hs, hx]; rfl
+
+/-- … in particular a plain call (`hm` = `C09_singleton_callers_modelled`) -/
+theorem plain_generated_nil (hm : callersModelled = true) (hf : callFootprintsModelled = true)
+    (a : Api) (h : a.plain = true) : a.generated = [] :=
+  generated_nil_of hf a (plain_not_touches hm a h)
+
 /-- a step that reads and writes only cells of thread `i` -/
 def OwnStep {n : Nat} (i : Fin n) (s : List HCell × List HCell × (List HVal → List HVal)) : Prop :=
   (∀ c ∈ s.1, Vis (handlerOwner n) i c) ∧ (∀ c ∈ s.2.1, handlerOwner n c = .thread i)
@@ -262,12 +425,13 @@ theorem ownStep_assignFixed {n : Nat} (i : Fin n) (k j : Nat) : ∀ s ∈ assign
   exact h
 
 /-- the steps of a plain call on a plain handler touch only cells of the thread -/
-theorem steps_own (hm : callersModelled = true) {n : Nat} (i : Fin n) (s : Bool) (a : Api) (h : a.plain = true) :
+theorem steps_own (hm : callersModelled = true) (hf : callFootprintsModelled = true) {n : Nat} (i : Fin n)
+    (s : Bool) (a : Api) (h : a.plain = true) :
     ∀ st ∈ a.steps i.val false s, OwnStep i st := by
   intro st hst
   unfold Api.steps at hst
-  rw [plain_not_touches hm a h, plain_not_prints a h] at hst
-  simp only [Bool.false_and, Bool.false_eq_true, if_false, List.append_nil] at hst
+  rw [plain_not_touches hm a h, plain_not_prints a h, plain_generated_nil hm hf a h] at hst
+  simp only [Bool.false_and, Bool.false_eq_true, if_false, List.append_nil, List.isEmpty_nil, if_true] at hst
   cases a with
   | construct g s' =>
     rcases hst with _ | ⟨_, hst⟩
@@ -294,7 +458,8 @@ theorem steps_own (hm : callersModelled = true) {n : Nat} (i : Fin n) (s : Bool)
   | addStandardArgument => simp [Api.plain] at h
   | evalArgumentString => simp [Api.plain] at h
 
-theorem apiSteps_own (hm : callersModelled = true) {n : Nat} (i : Fin n) (calls : List Api) :
+theorem apiSteps_own (hm : callersModelled = true) (hf : callFootprintsModelled = true) {n : Nat} (i : Fin n)
+    (calls : List Api) :
     ∀ s, Plain calls = true → ∀ st ∈ apiSteps i.val false s calls, OwnStep i st := by
   induction calls with
   | nil => intro s _ st hst; cases hst
@@ -308,27 +473,27 @@ theorem apiSteps_own (hm : callersModelled = true) {n : Nat} (i : Fin n) (calls 
       subst hg
       unfold apiSteps at hst
       rcases List.mem_append.mp hst with h1 | h2
-      · exact steps_own hm i s' _ hp'.1 st h1
+      · exact steps_own hm hf i s' _ hp'.1 st h1
       · exact ih s' hp'.2 st h2
     | addListArg k =>
       unfold apiSteps at hst
       rcases List.mem_append.mp hst with h1 | h2
-      · exact steps_own hm i s _ hp'.1 st h1
+      · exact steps_own hm hf i s _ hp'.1 st h1
       · exact ih s hp'.2 st h2
     | addBracketHandler =>
       unfold apiSteps at hst
       rcases List.mem_append.mp hst with h1 | h2
-      · exact steps_own hm i s _ hp'.1 st h1
+      · exact steps_own hm hf i s _ hp'.1 st h1
       · exact ih s hp'.2 st h2
     | addSubGroupArg =>
       unfold apiSteps at hst
       rcases List.mem_append.mp hst with h1 | h2
-      · exact steps_own hm i s _ hp'.1 st h1
+      · exact steps_own hm hf i s _ hp'.1 st h1
       · exact ih s hp'.2 st h2
     | evalUse k j =>
       unfold apiSteps at hst
       rcases List.mem_append.mp hst with h1 | h2
-      · exact steps_own hm i s _ hp'.1 st h1
+      · exact steps_own hm hf i s _ hp'.1 st h1
       · exact ih s hp'.2 st h2
     | usage => simp [Api.plain] at hp'
     | listArgGroups => simp [Api.plain] at hp'
@@ -337,9 +502,29 @@ theorem apiSteps_own (hm : callersModelled = true) {n : Nat} (i : Fin n) (calls 
 
 /-- **the footprint condition, proved**: the thread program derived from a plain call list reads
 and writes only cells of its own thread -/
-theorem threadProg_local (hm : callersModelled = true) {n : Nat} (i : Fin n) (calls : List Api)
-    (h : Plain calls = true) : (threadProg i.val calls).Local (handlerOwner n) i :=
-  ofList_local _ i _ (apiSteps_own hm i calls false h)
+theorem threadProg_local (hm : callersModelled = true) (hf : callFootprintsModelled = true) {n : Nat} (i : Fin n)
+    (calls : List Api) (h : Plain calls = true) : (threadProg i.val calls).Local (handlerOwner n) i :=
+  ofList_local _ i _ (apiSteps_own hm hf i calls false h)
+
+/-- `Plain` is sufficient, not necessary (audit 2, part D, probe (1)): a handler constructed with
+`hfInGroup` on which no argument is added is not `Plain`, and its thread program is `Local` all the
+same — no add-call reaches the cross check (and, `hf`, the closures of the constructor and of
+`evalArguments` name no process-wide object in the tree under check). -/
+theorem group_handler_without_add_local (hf : callFootprintsModelled = true) :
+    Plain [.construct true true, .evalUse 0 0] = false ∧
+    (threadProg 0 [.construct true true, .evalUse 0 0]).Local (handlerOwner 1) (0 : Fin 1) := by
+  refine ⟨by decide, ?_⟩
+  have g1 : (Api.construct true true).generated = [] := generated_nil_of hf _ rfl
+  have g2 : (Api.evalUse 0 0).generated = [] := generated_nil_of hf _ rfl
+  apply ofList_local
+  intro s hs
+  have : s ∈ (touch [HCell.tmp 0] :: touch [HCell.tmp 0] :: assignFixed 0 0 0) := by
+    simpa [threadProg, apiSteps, Api.steps, Api.touchesSingleton, Api.entry, Api.prints, g1, g2] using hs
+  rcases List.mem_cons.mp this with h | h
+  · subst h; exact ownStep_touch (0 : Fin 1) _ (own_tmp (0 : Fin 1))
+  · rcases List.mem_cons.mp h with h | h
+    · subst h; exact ownStep_touch (0 : Fin 1) _ (own_tmp (0 : Fin 1))
+    · exact ownStep_assignFixed (0 : Fin 1) 0 0 s h
 
 /-! ### … and only they: a call that reaches the singleton breaks the condition -/
 
@@ -422,7 +607,7 @@ theorem threadProg_reaches (t : Nat) (calls : List Api) (a : Api) (ha : a ∈ ca
   apply ofList_footprint _ (touch singletonCells) (h _ _) c hc
   unfold Api.steps
   rw [hu g, if_pos rfl]
-  exact List.mem_append_left _ (List.mem_append_right _ List.mem_cons_self)
+  exact List.mem_append_left _ (List.mem_append_left _ (List.mem_append_right _ List.mem_cons_self))
 
 /-- … hence such a thread does **not** satisfy the footprint condition (as long as the inventory
 lists a singleton member at all) -/
